@@ -61,9 +61,22 @@ structure LineWhitespace where
 def LineWhitespace.add (a b : LineWhitespace) : LineWhitespace :=
   { indentations := a.indentations + b.indentations, continuations := a.continuations + b.continuations }
 
+/-- what the search reads of the configuration: the width limit, the `begin` style and the widths of the two
+    indentation strings (never the line ending, never which characters the indentation is made of) -/
+structure SearchCfg where
+  wrapColumn : Nat
+  beginAlwaysWrap : Bool
+  indLen : Nat
+  contLen : Nat
+  deriving Repr, DecidableEq
+
+def Config.searchCfg (c : Config) : SearchCfg :=
+  { wrapColumn := c.wrapColumn, beginAlwaysWrap := c.beginAlwaysWrap,
+    indLen := c.settings.indStr.length, contLen := c.settings.contStr.length }
+
 /-- `LineWhitespace::len` -/
-def LineWhitespace.len (self : LineWhitespace) (S : Settings) : Nat :=
-  self.indentations * S.indStr.length + self.continuations * S.contStr.length
+def LineWhitespace.len (self : LineWhitespace) (S : SearchCfg) : Nat :=
+  self.indentations * S.indLen + self.continuations * S.contLen
 
 /-- `LineWhitespace::zero` -/
 def LineWhitespace.zero : LineWhitespace := { indentations := 0, continuations := 0 }
